@@ -42,7 +42,7 @@ GROUPS = [
      "IdentityLinearOperator.inv_quad_logdet squares and sums the right-hand side whatever its shape",
      "IdentityLinearOperator(3).inv_quad_logdet(ones(4, 2)) returns a value; eye(3) @ ones(4, 2) raises"),
     ("zero-add-returns-other",
-     lambda c, o, k: c == "ZeroLinearOperator" and o in ("add", "sub", "add_lo"),
+     lambda c, o, k: c == "ZeroLinearOperator" and o in ("add", "sub", "add_lo", "add_diag_lo"),
      "ZeroLinearOperator.__add__ returns the other operand without a broadcast check",
      "(ZeroLinearOperator(3, 3) + ones(3, 4)).shape == (3, 4); zeros(3, 3) + ones(3, 4) raises"),
     ("zero-matmul-ignores-batch",
@@ -107,8 +107,11 @@ def main(write):
         for u in unassigned:
             print("  ", u)
         return 1
+    pref_kind = ("size1_inner", "wrong_inner", "wrong_col", "nonsingleton_batch", "ge_pos-1", "dim_out_of_range", "nonsquare",
+                 "bad_batch")
+    pref_op = ("matmul", "add", "inv_quad_logdet", "getitem_alltensor", "expand", "solve", "cat", "logdet", "cholesky")
     for slug, pred, what, repro in GROUPS:
-        ents = files.get(slug, [])
+        ents = sorted(files.get(slug, []), key=lambda x: (x[2] not in pref_kind, x[1] not in pref_op, len(x[0]), x[0], x[1], x[2]))
         out = []
         seen = set()
         for i, (c, o, k, r) in enumerate(ents):
